@@ -191,4 +191,7 @@ theorem pushSC_top (st : List SC) (fr : FrameRec) : ∃ s rest, pushSC st fr = s
 theorem dupTop_top {s : SC} {rest : List SC} : dupTop (s :: rest) = s :: s :: rest := rfl
 
 
+deriving instance DecidableEq for VM
+deriving instance DecidableEq for Except
+
 end NeoModel.Witness
